@@ -1,4 +1,6 @@
 import KoordVerif.Model.C14
+import KoordVerif.Model.C14Entry
+import KoordVerif.Proofs.C14Ext
 /-
 C14 — property theorems (see DESIGN.md §4 C14).  Only statements about the property live
 here.  `-1` is the cgroup encoding of "unlimited"; `QLe a b` is `a ≤ b` with -1 as top.
@@ -539,6 +541,180 @@ theorem ratio_removed_resets (changed : Int → Int → Bool) (hc : ChangedOK ch
   have : changed old (-100) = true := hc.far old (-100) (Or.inl (by omega))
   simp [this]
 
+/-! ### 7. entry paths of the protocol package: NRI, runtime proxy and reconciler decode the same request -/
+
+/-- The NRI and the runtime-proxy path decode every annotation shape identically, pod- and container-level; and for
+    the annotation the webhook dumps for the pod (`webhookDump pod`) the reconciler path — which reads the pod spec
+    first — builds the same request as the other two. -/
+theorem entry_paths_agree (pod : List (Option Ctr)) (a : Ann) :
+    podFromNri a = podFromProxy a ∧ (∀ i, ctrFromNri a i = ctrFromProxy a i) ∧
+    (a = webhookDump pod →
+      podFromReconciler pod a = podFromNri a ∧ ∀ i, ctrFromReconciler pod a i = ctrFromNri a i) := by
+  refine ⟨?_, ?_, ?_⟩
+  · cases a <;> rfl
+  · intro i; cases a <;> rfl
+  · intro h
+    have hl := lookup_declared pod
+    unfold webhookDump at h
+    cases hd : declaredFrom 0 pod with
+    | nil =>
+      rw [hd] at h hl; subst h
+      refine ⟨by simp [podFromReconciler, specFromPod, hd, getExtSpec, podFromNri], ?_⟩
+      intro i
+      have : nth pod i = none := by rw [← hl i]; rfl
+      simp [ctrFromReconciler, this, getExtSpec, ctrFromNri]
+    | cons x t =>
+      rw [hd] at h hl; subst h
+      refine ⟨by simp [podFromReconciler, specFromPod, hd, getExtSpec, podFromNri], ?_⟩
+      intro i
+      have hi := hl i
+      simp only [ctrFromReconciler, ctrFromNri, getExtSpec]
+      cases hn : nth pod i with
+      | none => rfl
+      | some c => rw [hn] at hi; simp [hi]
+
+/-- a pod spec that declares batch resources wins over whatever the annotation says (reconciler path). -/
+theorem reconciler_prefers_pod_spec (pod : List (Option Ctr)) (a : Ann) (h : declaredFrom 0 pod ≠ []) :
+    podFromReconciler pod a = some (declaredFrom 0 pod) := by
+  unfold podFromReconciler specFromPod
+  cases hd : declaredFrom 0 pod with
+  | nil => exact absurd hd h
+  | cons x t => rfl
+
+/-- "undeclared means untouched": when the decoded annotation has no (non-nil) container map — key absent, "",
+    "{}", {"containers":null}, "null", invalid JSON — no entry path lets the hooks write anything, whatever the QoS,
+    the rule, the cgroup version or the initial file contents; the reconciler path too when the pod spec declares
+    nothing (resp. for a container that declares nothing). -/
+theorem no_spec_no_write (k : Consts) (cfg : Cfg) (isBE v2 : Bool) (init : Files) (a : Ann)
+    (h : ∀ m, getExtSpec a ≠ some (some m)) :
+    applyOut v2 init (podEntry k cfg isBE (podFromNri a)) = init ∧
+    applyOut v2 init (podEntry k cfg isBE (podFromProxy a)) = init ∧
+    (∀ i, ctrEntry k cfg isBE (ctrFromNri a i) = none ∧ ctrEntry k cfg isBE (ctrFromProxy a i) = none) ∧
+    (∀ pod, declaredFrom 0 pod = [] →
+      applyOut v2 init (podEntry k cfg isBE (podFromReconciler pod a)) = init) ∧
+    (∀ pod i, nth pod i = none →
+      applyOut v2 init (ctrEntry k cfg isBE (ctrFromReconciler pod a i)) = init) := by
+  have hN : podFromNri a = none := by
+    unfold podFromNri
+    cases hg : getExtSpec a with
+    | none => rfl
+    | some s => cases s with
+      | none => rfl
+      | some m => exact absurd hg (h m)
+  have hP : podFromProxy a = none := by rw [← (entry_paths_agree [] a).1]; exact hN
+  have hC : ∀ i, ctrFromNri a i = none := by
+    intro i
+    unfold ctrFromNri
+    cases hg : getExtSpec a with
+    | none => rfl
+    | some s => cases s with
+      | none => rfl
+      | some m => exact absurd hg (h m)
+  have hCP : ∀ i, ctrFromProxy a i = none := fun i => by rw [← (entry_paths_agree [] a).2.1 i]; exact hC i
+  have hpod : ∀ b : Bool, podHook k cfg b false [] = none := by intro b; cases b <;> simp [podHook]
+  refine ⟨by rw [hN]; simp [podEntry, hpod, applyOut], by rw [hP]; simp [podEntry, hpod, applyOut],
+    fun i => ⟨by rw [hC i]; rfl, by rw [hCP i]; rfl⟩, ?_, ?_⟩
+  · intro pod hd
+    have : podFromReconciler pod a = none := by
+      unfold podFromReconciler specFromPod
+      rw [hd]
+      cases hg : getExtSpec a with
+      | none => rfl
+      | some s => cases s with
+        | none => rfl
+        | some m => exact absurd hg (h m)
+    rw [this]; simp [podEntry, hpod, applyOut]
+  · intro pod i hn
+    have : ctrFromReconciler pod a i = none := by
+      unfold ctrFromReconciler
+      rw [hn]
+      cases hg : getExtSpec a with
+      | none => rfl
+      | some s => cases s with
+        | none => rfl
+        | some m => exact absurd hg (h m)
+    rw [this]; rfl
+
+/-- the hypothesis of `no_spec_no_write` holds for exactly these shapes. -/
+theorem no_spec_shapes (a : Ann) :
+    (∀ m, getExtSpec a ≠ some (some m)) ↔
+      (a = .absent ∨ a = .emptyStr ∨ a = .emptyObj ∨ a = .nullCtrs ∨ a = .invalid ∨ a = .jsonNull) := by
+  cases a <;> simp [getExtSpec]
+
+/-- FULL statement one would like: "an annotation that carries no container lets nothing be written".  It is FALSE
+    for `{"containers":{}}` (a non-nil EMPTY map passes the `spec.Containers != nil` guard): the pod hook then sums
+    over zero containers and injects cpu.shares 2, cfs quota -1 and MEMORY LIMIT 0, under every rule. -/
+theorem empty_containers_map_counterexample :
+    ¬ (∀ a : Ann, (∀ m, getExtSpec a = some (some m) → m = []) →
+        podEntry stdConsts ⟨true, false, id⟩ true (podFromNri a) = none) := by
+  intro h
+  have := h .emptyCtrs (by intro m hm; simp [getExtSpec] at hm; exact hm)
+  revert this; decide
+
+theorem empty_containers_map_writes (cfg : Cfg) :
+    podEntry stdConsts cfg true (podFromNri .emptyCtrs) = some ⟨2, -1, 0⟩ ∧
+    podEntry stdConsts cfg true (podFromProxy .emptyCtrs) = some ⟨2, -1, 0⟩ := by
+  have hq : podQuota stdConsts cfg [] = -1 := by
+    unfold podQuota
+    by_cases hc : cfg.cfs = true
+    · have : milliCPUToQuota stdConsts (sumOrUnlimited []) = -1 := by decide
+      simp [hc, this, applyScale]
+    · simp [hc]
+  have hs : podShares stdConsts [] = 2 := by decide
+  have hm : podMem [] = 0 := by decide
+  constructor <;> simp [podEntry, podFromNri, podFromProxy, getExtSpec, podHook, hq, hs, hm]
+
+/-- non-BE pods: nothing is written on any path, for any decoded request. -/
+theorem non_be_no_write (k : Consts) (cfg : Cfg) (v2 : Bool) (init : Files)
+    (spec : Option (List (Nat × Ctr))) (c : Option Ctr) :
+    applyOut v2 init (podEntry k cfg false spec) = init ∧ applyOut v2 init (ctrEntry k cfg false c) = init ∧
+    applyQuota v2 init (podEntry k cfg false spec) = init := by
+  cases spec <;> cases c <;> simp [podEntry, ctrEntry, podHook, ctrHook, applyOut, applyQuota]
+
+/-- BE pod carrying the webhook's dump of a pod spec that declares something: all three pod-level paths write
+    exactly the conversion of the sums over the declaring containers. -/
+theorem entry_known_writes_conversion (cfg : Cfg) (v2 : Bool) (init : Files) (pod : List (Option Ctr))
+    (h : declaredFrom 0 pod ≠ []) :
+    let cs := (declaredFrom 0 pod).map (·.2)
+    let want : Files := { shares := writeShares v2 (podShares stdConsts cs),
+                          quota := writeLimit v2 (podQuota stdConsts cfg cs),
+                          mem := writeLimit v2 (podMem cs) }
+    applyOut v2 init (podEntry stdConsts cfg true (podFromNri (webhookDump pod))) = want ∧
+    applyOut v2 init (podEntry stdConsts cfg true (podFromProxy (webhookDump pod))) = want ∧
+    applyOut v2 init (podEntry stdConsts cfg true (podFromReconciler pod (webhookDump pod))) = want := by
+  intro cs want
+  have hrec := reconciler_prefers_pod_spec pod (webhookDump pod) h
+  have hagree := entry_paths_agree pod (webhookDump pod)
+  have hN : podFromNri (webhookDump pod) = some (declaredFrom 0 pod) := by
+    rw [← (hagree.2.2 rfl).1]; exact hrec
+  have hP : podFromProxy (webhookDump pod) = some (declaredFrom 0 pod) := by rw [← hagree.1]; exact hN
+  rw [hN, hP, hrec]
+  simp [podEntry, podHook, applyOut, want, cs]
+
+/-! ### 8. cgroup v2 formats: cpu.weight from shares, `max` for unlimited -/
+
+theorem weight_range (s : Int) : 1 ≤ sharesToWeight s ∧ sharesToWeight s ≤ 10000 := sharesToWeight_range s
+
+theorem weight_mono (a b : Int) (ha : 2 ≤ a) (h : a ≤ b) : sharesToWeight a ≤ sharesToWeight b :=
+  sharesToWeight_mono a b ha h
+
+/-- the ends of the share range map to the ends of the weight range. -/
+theorem weight_ends : sharesToWeight 2 = 1 ∧ sharesToWeight 262144 = 10000 ∧ sharesToWeight 1024 = 39 := by decide
+
+/-- on cgroup v2 too the pod's cpu.weight is never below a container's. -/
+theorem pod_weight_ge_container (cs : List Ctr) (c : Ctr) (hc : c ∈ cs) :
+    sharesToWeight (ctrShares stdConsts c) ≤ sharesToWeight (podShares stdConsts cs) := by
+  apply sharesToWeight_mono _ _ ?_ (pod_shares_ge_container cs c hc)
+  unfold ctrShares; rw [std_shares]; split <;> omega
+
+/-- v2 writes `max` exactly for the unlimited value -1 (cpu.max, memory.max); v1 writes the number itself. -/
+theorem v2_unlimited_is_max (v : Int) :
+    (writeLimit true v = .max ↔ v = -1) ∧ writeLimit false v = .num v := by
+  unfold writeLimit
+  by_cases h : v = -1
+  · subst h; simp
+  · simp [h]
+
 /-! ### non-vacuity -/
 
 example : ChangedOK (fun a b => decide (a ≠ b)) := ⟨fun a b h => by simp; omega, fun a => by simp⟩
@@ -548,5 +724,10 @@ example : ScaleOK (fun q => (q * 100 + 109) / 110) := by
   refine ⟨?_, ?_, ?_⟩ <;> intros <;> omega
 
 example : podQuota stdConsts ⟨true, false, id⟩ [⟨500, 1000, 64⟩, ⟨100, 5, 64⟩] = 100500 := by decide
+
+-- the hypotheses of the entry-path theorems are satisfiable on non-trivial inputs
+example : webhookDump [some ⟨500, 1000, 64⟩, none, some ⟨100, 5, 64⟩] = .valid [(0, ⟨500, 1000, 64⟩), (2, ⟨100, 5, 64⟩)] := by decide
+example : ∀ m, getExtSpec .nullCtrs ≠ some (some m) := by intro m; simp [getExtSpec]
+example : ctrFromReconciler [some ⟨500, 1000, 64⟩, none] .absent 0 = some ⟨500, 1000, 64⟩ ∧ ctrFromNri .absent 0 = none := by decide
 
 end KoordVerif.C14
